@@ -80,6 +80,9 @@ type c13Outcome struct {
 	Violation string
 	Detail    string
 	Board     int
+	// StoreShape: per node, the signature store reduced to what does not depend on the run's random
+	// identifiers: per batch and message the sorted list of (broadcasting user, has-signature).
+	StoreShape string
 }
 
 func guarded(f func()) (crashed bool) {
@@ -300,6 +303,26 @@ func runC13(seed uint64, n, t, victim int, crashes []int) c13Outcome {
 			return out
 		}
 	}
+	var shape []string
+	for _, nd := range w.Nodes {
+		var batches []string
+		for _, msgs := range SigStore(nd, ce.Round) {
+			var ms []string
+			for _, entries := range msgs {
+				var es []string
+				for _, e := range entries {
+					es = append(es, fmt.Sprintf("%s:%v", e.Username, len(e.Signature) > 0))
+				}
+				sort.Strings(es)
+				ms = append(ms, "["+strings.Join(es, " ")+"]")
+			}
+			sort.Strings(ms)
+			batches = append(batches, "{"+strings.Join(ms, " ")+"}")
+		}
+		sort.Strings(batches)
+		shape = append(shape, nd.Name+"="+strings.Join(batches, " "))
+	}
+	out.StoreShape = strings.Join(shape, "; ")
 	out.Effects = plan.count
 	out.Classes = plan.classes
 	out.Board = w.Board.Len()
@@ -312,6 +335,7 @@ func checkC13(c *Ctx) {
 	type job struct {
 		n, t, victim int
 		crashes      []int
+		ref          int
 	}
 	type refk struct{ n, t, victim int }
 	var refs []refk
@@ -341,12 +365,12 @@ func checkC13(c *Ctx) {
 		c.Add("reference_effects", o.Effects)
 		c.Sample(map[string]interface{}{"n": r.n, "t": r.t, "victim": r.victim, "durable_effects_in_reference_run": o.Effects, "board_len": o.Board, "effect_classes_head": o.Classes[:min(12, len(o.Classes))]})
 		for k := 1 + i%stride; k <= o.Effects+1; k += stride {
-			jobs = append(jobs, job{r.n, r.t, r.victim, []int{k}})
+			jobs = append(jobs, job{r.n, r.t, r.victim, []int{k}, i})
 		}
 		// directed witness of the open finding: the first fsm_state -> operations window of the run
 		for k := 1; k < len(o.Classes) && stride > 1; k++ {
 			if o.Classes[k-1] == "set:vtopic_fsm_state" && o.Classes[k] == "set:vtopic_operations" {
-				jobs = append(jobs, job{r.n, r.t, r.victim, []int{k + 1}})
+				jobs = append(jobs, job{r.n, r.t, r.victim, []int{k + 1}, i})
 				break
 			}
 		}
@@ -354,10 +378,10 @@ func checkC13(c *Ctx) {
 			rg := c.Rng(13, uint64(i))
 			for d := 0; d < 40; d++ {
 				k1 := 1 + rg.Intn(o.Effects)
-				jobs = append(jobs, job{r.n, r.t, r.victim, []int{k1, 1 + rg.Intn(12)}})
+				jobs = append(jobs, job{r.n, r.t, r.victim, []int{k1, 1 + rg.Intn(12)}, i})
 			}
 			for d := 0; d < 10; d++ {
-				jobs = append(jobs, job{r.n, r.t, r.victim, []int{1 + rg.Intn(o.Effects), 1 + rg.Intn(10), 1 + rg.Intn(10)}})
+				jobs = append(jobs, job{r.n, r.t, r.victim, []int{1 + rg.Intn(o.Effects), 1 + rg.Intn(10), 1 + rg.Intn(10)}, i})
 			}
 		}
 	}
@@ -381,6 +405,12 @@ func checkC13(c *Ctx) {
 		c.Distinct(fmt.Sprintf("n%d v%d %s x%d", jb.n, jb.victim, o.Where, len(jb.crashes)))
 		if o.Violation != "" {
 			c.Violate(o.Violation+":"+o.Where, o.Detail, map[string]interface{}{"n": jb.n, "t": jb.t, "victim": jb.victim, "kill_before_effect": jb.crashes, "crash_point": o.Where})
+		} else if ref := refOut[jb.ref].StoreShape; o.StoreShape != ref {
+			// applied exactly once in effect: who is recorded how often in the signature store is the same
+			// as in the run without a crash
+			c.Violate("C13/signature-store-differs-from-crash-free-run:"+o.Where, fmt.Sprintf("after recovery: %s; without a crash: %s", o.StoreShape, ref), map[string]interface{}{"n": jb.n, "t": jb.t, "victim": jb.victim, "kill_before_effect": jb.crashes, "crash_point": o.Where})
+		} else {
+			c.Add("signature_stores_equal_to_crash_free_run", 1)
 		}
 	})
 	c.Set("crash_point_classes", whereSeen)
